@@ -53,7 +53,8 @@ func zzChunks(id string, letter string) []string {
 	n := zz.Choose("nchunks."+id, zz.Param("maxchunks", 2)+1)
 	var out []string
 	// chunk shapes: partial line, whole line, line end + partial line, empty line, two lines, empty write
-	shapes := []string{letter, letter + "\n", "\n" + letter, "\n", letter + "\n" + letter + "\n", ""}
+	// ... and a line longer than the buffer of a bufio.Writer (4096 bytes)
+	shapes := []string{letter, letter + "\n", "\n" + letter, "\n", letter + "\n" + letter + "\n", "", strings.Repeat(letter, 5000) + "\n"}
 	for k := 0; k < n; k++ {
 		out = append(out, shapes[zz.Choose(fmt.Sprintf("chunk.%s.%d", id, k), len(shapes))])
 	}
@@ -183,6 +184,45 @@ func ZZ_C17_Prefixed() {
 		}
 		zz.Assert(strings.Count(all, "["+ids[k]+"] ") == nlines, "prefixed/no-line-lost-or-duplicated")
 		zz.Assert(strings.Count(all, letters[k]) == strings.Count(body, letters[k]), "prefixed/no-byte-lost-or-duplicated")
+	}
+	if zz.Twin() {
+		zz.Assert(false, "twin")
+	}
+	zz.Reach("end")
+}
+
+// ZZ_C18_PipelineWriters: one command whose output arrives from two goroutines at once (the
+// two sides of a shell pipeline writing to stderr, a background job, stdout and stderr of
+// an external command: both are the same wrapped writer). The wrapper's own buffer is shared
+// state of Task's code: the two writes must be synchronised (race check), and nothing either
+// side wrote may be lost.
+func ZZ_C18_PipelineWriters() {
+	sink := &zzShared{}
+	grouped := zz.Bool("output_group")
+	cache := &templater.Cache{Vars: ast.NewVars()}
+	var out, errw io.Writer
+	var closer CloseFunc
+	if grouped {
+		out, errw, closer = Group{}.WrapWriter(sink, sink, "", cache)
+	} else {
+		p := NewPrefixed(&logger.Logger{Stdout: io.Discard, Stderr: io.Discard})
+		out, errw, closer = p.WrapWriter(sink, sink, "T", cache)
+	}
+	ws := []io.Writer{out, errw}
+	lines := []string{"a\n", "b\n"}
+	zzRunBoth(func(k int) {
+		n := 1
+		if zz.Native() {
+			n = 300 // many writes, so that the race detector sees two of them overlap
+		}
+		for j := 0; j < n; j++ {
+			_, _ = io.WriteString(ws[k], lines[k])
+		}
+	})
+	_ = closer(nil)
+	all := strings.Join(sink.writes, "")
+	if !zz.Native() {
+		zz.Assert(strings.Count(all, "a") == 1 && strings.Count(all, "b") == 1, "pipeline/no-byte-lost-or-duplicated")
 	}
 	if zz.Twin() {
 		zz.Assert(false, "twin")
